@@ -6,7 +6,7 @@ import vlib
 from vlib import CheckError
 
 CLAUSE = {1: "envelope", 2: "spaced-refused", 3: "gc-visible", 4: "not-independent", 5: "concurrent",
-          6: "idle-entry-not-forgotten", 11: "envelope", 12: "spaced-refused", 14: "not-independent"}
+          6: "idle-entry-not-forgotten", 7: "call-does-not-return", 8: "idle-entry-not-forgotten", 11: "envelope", 12: "spaced-refused", 14: "not-independent"}
 CONC_SIG = "concurrent-new-address-insert-race"
 
 
@@ -16,6 +16,8 @@ class Prop:
     vo_props = ["theories/Props/C19.vo"]
     k_names = ["decisions(ratelimiter.Allow/cleanup under VerifSetClock == Ratelimit.Model.step, with passes, without passes, address alone)",
                "concurrent(k callers of Allow for one new address held at the clock call; observed admissions judged by Spec.envelope_chk)",
+               "liveness(real collector goroutine of Init: table emptied after an idle gap, then first inserts from concurrent callers with "
+               "the clock read inside Allow's insert section held for more than one ticker period; every Allow and Close returns under a watchdog)",
                "device(real device under load, cookie exchange done, one address flooding while another sends 60 ms apart, then the flood "
                "continues across a UAPI listen_port change and Down/Up, v4 and v6; "
                "processed/refused per message judged by Spec envelope/spaced/independence checkers)"]
@@ -42,6 +44,8 @@ class Prop:
         self.conc_index = None
         self.dev_file = None
         self.dev_index = None
+        self.live_file = None
+        self.live_index = None
 
     def _load(self, d):
         meta = json.load(open(os.path.join(d, "cases.json")))
@@ -70,7 +74,13 @@ class Prop:
         self.dev_file = os.path.join(self.dir, meta["dev_file"]) if meta.get("dev_file") else None
         if self.dev_file:
             files = files + [self.dev_file]
+        self.live_index = meta.get("live_index")
+        self.live_file = os.path.join(self.dir, meta["live_file"]) if meta.get("live_file") else None
+        if self.live_file:
+            files = files + [self.live_file]
         self.extra_coverage = {}
+        if self.live_index is not None:
+            self.extra_coverage["real_collector_liveness"] = meta["cases"][self.live_index]["live"]["summary"]
         c = meta["cases"][self.conc_index]["conc"] if self.conc_index is not None else None
         if c:
             self.extra_coverage["concurrent_scenario"] = {k: c[k] for k in c if k != "decisions"}
@@ -83,7 +93,7 @@ class Prop:
         return files, meta["cases"]
 
     @staticmethod
-    def _fails(shards, files, outputs, conc_file, conc_index, dev_file=None, dev_index=None):
+    def _fails(shards, files, outputs, conc_file, conc_index, dev_file=None, dev_index=None, live_file=None, live_index=None):
         res = []
         for s, f in zip(shards, files):
             for (idx, kind, clause, pos) in vlib.parse_n_tuples(vlib.coq_value(outputs[f], "bad")):
@@ -95,15 +105,19 @@ class Prop:
         if dev_file and dev_file in outputs:
             for (idx, kind, clause, pos) in vlib.parse_n_tuples(vlib.coq_value(outputs[dev_file], "dbad")):
                 res.append({"case": dev_index + idx, "kind": kind, "clause": clause, "pos": pos})
+        if live_file and live_file in outputs:
+            for (idx, kind, clause, pos) in vlib.parse_n_tuples(vlib.coq_value(outputs[live_file], "lbad")):
+                res.append({"case": live_index, "kind": kind, "clause": clause, "pos": pos})
         return res
 
     def failures(self, outputs, files, cases):
-        return self._fails(self.shards, files, outputs, self.conc_file, self.conc_index, self.dev_file, self.dev_index)
+        return self._fails(self.shards, files, outputs, self.conc_file, self.conc_index, self.dev_file, self.dev_index,
+                           self.live_file, self.live_index)
 
     def stats(self, outputs):
         tot = [0] * 9
         for f, o in outputs.items():
-            if f == self.conc_file or f == self.dev_file:
+            if f in (self.conc_file, self.dev_file, self.live_file):
                 continue
             v = vlib.parse_n_list(vlib.coq_value(o, "st"))
             tot = [a + b for a, b in zip(tot, v)]
@@ -123,24 +137,27 @@ class Prop:
                 return {"conc": {"k": c["conc"].get("k", 16), "followups": c["conc"].get("followups", 8)}, "gen": "concurrent-new-address"}
             if c.get("dev"):
                 return {"dev": {"family": c["dev"].get("family", "v4")}, "gen": "device-level"}
+            if c.get("live") is not None:
+                return {"live": {}, "gen": "real-collector-liveness"}
             return {"addrs": c["addrs"], "ops": c["ops"], "pa": c.get("pa", 0)}
         json.dump([inp_of(c) for c in cases], open(inp, "w"))
         meta, files = self._run_go(["-replay", inp, "-out", d], d)
         cf = os.path.join(d, meta["conc_file"]) if meta.get("conc_file") else None
         df = os.path.join(d, meta["dev_file"]) if meta.get("dev_file") else None
-        outs = vlib.run_case_files(files + ([cf] if cf else []) + ([df] if df else []))
+        lf = os.path.join(d, meta["live_file"]) if meta.get("live_file") else None
+        outs = vlib.run_case_files(files + ([cf] if cf else []) + ([df] if df else []) + ([lf] if lf else []))
         self.last_rerun = meta["cases"]
-        res = self._fails(meta["shards"], files, outs, cf, meta.get("conc_index"), df, meta.get("dev_index"))
+        res = self._fails(meta["shards"], files, outs, cf, meta.get("conc_index"), df, meta.get("dev_index"), lf, meta.get("live_index"))
         # replayed sequential cases keep their order; the harness puts a concurrent case after them and device cases last
-        seq = lambda c: not c.get("conc") and not c.get("dev")
+        seq = lambda c: not c.get("conc") and not c.get("dev") and c.get("live") is None
         order = ([i for i, c in enumerate(cases) if seq(c)] + [i for i, c in enumerate(cases) if c.get("conc")] +
-                 [i for i, c in enumerate(cases) if c.get("dev")])
+                 [i for i, c in enumerate(cases) if c.get("dev")] + [i for i, c in enumerate(cases) if c.get("live") is not None])
         for f in res:
             f["case"] = order[f["case"]]
         return res
 
     def shrink_candidates(self, case):
-        if case.get("conc") or case.get("dev"):
+        if case.get("conc") or case.get("dev") or case.get("live") is not None:
             return
         ops = case["ops"]
         n = len(ops)
@@ -155,11 +172,15 @@ class Prop:
     def signature(self, case, f):
         if case.get("conc"):
             return CONC_SIG
+        if case.get("live") is not None:
+            return "collector-" + CLAUSE.get(f.get("clause"), "clause%s" % f.get("clause"))
         if case.get("dev"):
             return "device-" + CLAUSE.get(f.get("clause"), "clause%s" % f.get("clause"))
         return "sequential-" + CLAUSE.get(f.get("clause"), "clause%s" % f.get("clause"))
 
     def nontrivial(self, c):
+        if c.get("live") is not None:
+            return bool(c["live"].get("emptied_by_real_collector"))
         if c.get("conc"):
             return True
         if c.get("dev"):
@@ -176,6 +197,8 @@ class Prop:
         return gc and len(adm) >= 2 and len(ref) >= 1
 
     def sample(self, c):
+        if c.get("live") is not None:
+            return {"gen": c.get("gen"), "live": c["live"]["summary"]}
         if c.get("dev"):
             return {"gen": c.get("gen"), "device": c["dev"]["summary"]}
         if c.get("conc"):
@@ -194,7 +217,7 @@ def replay(path):
     case = obj.get("input") or obj
     fs = p.run_cases([case])
     obs = p.last_rerun[0]
-    print(json.dumps({"failures": fs, "observed": obs.get("conc") or (obs.get("dev") or {}).get("summary") or obs.get("obs")}))
+    print(json.dumps({"failures": fs, "observed": obs.get("conc") or (obs.get("dev") or {}).get("summary") or (obs.get("live") or {}).get("summary") or obs.get("obs")}))
     if any(f["kind"] == 2 for f in fs):
         print("VIOLATION property=C19 replay=%s" % path)
         return 1
